@@ -88,7 +88,7 @@ def gen_mixfit(g, kind=None, thorough=False):
     opts = {}
     aligner = None
     if kind == 'cbmm':
-        D, K = int(g.choice([2, 3])), 2
+        D, K = int(g.choice([2, 3, 3, 4])), 2
     if integration:
         F = int(g.choice([1, 2, 3]))
     else:
@@ -146,6 +146,10 @@ def gen_mixfit(g, kind=None, thorough=False):
                        scale=float(g.choice([1.0, 1.0, 1e-2, 30.0])),
                        offset=float(g.choice([0, 0, 0, 1e3, 3e5])),
                        order=g.choice(['shuffled', 'sorted']))
+    if kind in ('cacgmm', 'cwmm', 'gcacgmm', 'vmfcacgmm', 'vmfmm') and g.coin(0.06):
+        # digital silence (not for the Bingham models: a zero vector is not a
+        # point of the sphere and the moment equation has no solution then)
+        a['obs']['zero_frames'] = int(g.choice([1, 2, 3]))
     if kind == 'gcacgmm':
         a['emb'] = _mk(g, 'rclusters', lead + [N, E], K=K,
                        scale=float(g.choice([1.0, 1.0, 1e-2, 30.0])),
@@ -179,7 +183,10 @@ def gen_mixfit(g, kind=None, thorough=False):
         if g.coin(0.25):
             opts['hermitize'] = False
         if g.coin(0.25):
-            opts['eigenvalue_floor'] = g.choice([1e-10, 1e-6, 1e-3])
+            opts['eigenvalue_floor'] = g.choice([1e-10, 1e-6, 1e-3, 0.0])
+            if opts['eigenvalue_floor'] == 0.0 and a['obs']['kind'] == 'cclusters' \
+                    and g.coin(0.5):
+                a['obs']['spread'] = 1e-6      # nearly coherent sources
         if start == 'array' and a['init']['shape'] == lead + [K, N] and g.coin(0.3):
             a['sam'] = _mk(g, 'activity', lead + [K, N])
     if kind in ('gmm', 'gcacgmm'):
@@ -207,7 +214,7 @@ def gen_mixfit(g, kind=None, thorough=False):
         if g.coin(0.4):
             opts['affiliation_eps'] = g.choice([0.0, 1e-10, 1e-6])
         if g.coin(0.2):
-            opts['eigenvalue_floor'] = g.choice([1e-10, 1e-6])
+            opts['eigenvalue_floor'] = g.choice([1e-10, 1e-6, 0.0])
     if kind in ('vmfmm', 'vmfcacgmm') and g.coin(0.4):
         opts['max_concentration'] = float(g.choice([20, 500]))
         opts['min_concentration'] = float(g.choice([1e-10, 0.5]))
@@ -227,7 +234,7 @@ def gen_mixfit(g, kind=None, thorough=False):
 def gen_distfit(g):
     kind = g.choice(['gaussian', 'gaussian', 'ccsg', 'vmf', 'watson', 'watson',
                      'bingham'])
-    D = int(g.choice([2, 3, 4, 5])) if kind != 'bingham' else int(g.choice([2, 3]))
+    D = int(g.choice([2, 3, 4, 5])) if kind != 'bingham' else int(g.choice([2, 3, 3, 4, 5]))
     N = int(g.rng.randint(D + 2, 30))
     if kind != 'bingham' and g.coin(0.05):
         N = int(g.rng.randint(260, 600))
@@ -251,6 +258,8 @@ def gen_distfit(g):
         a['y'] = _mk(g, 'rconcentrated', lead + [N, D], noise=noise)
     else:
         a['y'] = _mk(g, g.choice(['normal', 'rclusters']), lead + [N, D], K=2)
+    if kind in ('watson', 'vmf', 'ccsg') and g.coin(0.06):
+        a['y']['zero_frames'] = int(g.choice([1, 2]))
     sk = g.choice(['none', 'real', 'int', 'real', 'bool', 'int8'])
     if sk == 'real':
         sc = g.choice([1.0, 1.0, 1e-2, 1e-4, 1e-12])
@@ -295,6 +304,12 @@ def gen_tyler(g):
                                          [N, D], K=1),
          'iterations': int(g.choice([1, 2, 3, 5, 10])),
          'opts': {}}
+    if g.coin(0.15):
+        # no floor, nearly coherent source; one step only (the n-step
+        # comparison is not conditioning-aware)
+        a['opts']['eigenvalue_floor'] = 0.0
+        a['y'] = _mk(g, 'cclusters', [N, D], K=1, spread=1e-6)
+        a['iterations'] = 1
     if g.coin(0.5):
         a['opts']['covariance_norm'] = g.choice(['eigenvalue', 'trace', False])
     if g.coin(0.2):
@@ -620,7 +635,9 @@ def run_mixfit(tr, op, program):
         if op.get('method') == 'fit_predict':
             exp = models.bayes_posterior(kind, last, obs, emb)
             p_tol = _posterior_tolerance(kind, last, obs, emb, None, 0.0, exp)
-            if isinstance(returned, np.ndarray) and returned.shape == exp.shape \
+            if p_tol is None:
+                tr.count('probe:estep_not_judged_ill_conditioned')
+            elif isinstance(returned, np.ndarray) and returned.shape == exp.shape \
                     and not (np.all(np.isfinite(exp))
                              and np.all(np.isfinite(returned))):
                 # a class lost all its mass (non-finite model): whether that
@@ -744,6 +761,11 @@ def _posterior_tolerance(kind, model, obs, emb, sam=None, eps=0.0, exp=None):
     with np.errstate(invalid='ignore'):
         cond = float(np.nanmax(np.abs(exp - exp_p))) if exp.size else 0.0
     a_tol = 1e-10 + 1000 * (cond if np.isfinite(cond) else 0.0)
+    if a_tol > 1e-3:
+        # the posterior is so ill-conditioned (e.g. no eigenvalue floor and
+        # nearly coherent data) that Bayes' rule cannot be checked to any
+        # useful tolerance: the caller does not judge this E-step
+        return None
     S.note('estep_conditioning_allowance', a_tol, 1e-3)
     return a_tol
 
@@ -769,6 +791,9 @@ def _check_estep(tr, kind, prev_model, obs, emb, z, aff, qf, sam, eps, op,
             np.reshape(spectral, (K, F, T)), (1, 0, 2))
         w = models.broadcast_weight(kind, prev_model, aff.shape)
         a_tol = _posterior_tolerance(kind, prev_model, obs, emb, None, eps)
+        if a_tol is None:
+            tr.count('probe:estep_not_judged_ill_conditioned')
+            return None
         nonid = False
         for f in range(F):
             ok = None
@@ -799,6 +824,9 @@ def _check_estep(tr, kind, prev_model, obs, emb, z, aff, qf, sam, eps, op,
     if exp.shape != aff.shape:
         return f'posterior shape {aff.shape} vs {exp.shape}'
     a_tol = _posterior_tolerance(kind, prev_model, obs, emb, sam, eps, exp)
+    if a_tol is None:
+        tr.count('probe:estep_not_judged_ill_conditioned')
+        return None
     if 'aligner' in op:
         msg, res = S.find_common_permutation(
             exp, aff, q_exp, qf, atol=a_tol,
@@ -1012,9 +1040,12 @@ def run_tyler(tr, op, program):
         C = S.spec_cacg_covariance(
             z, ones, q, hermitize=opts.get('hermitize', True),
             covariance_norm=opts.get('covariance_norm', 'eigenvalue'),
-            eigenvalue_floor=1e-10)
-        Ci = np.linalg.inv(C)
-        q = np.einsum('nd,de,ne->n', z.conj(), Ci, z).real
+            eigenvalue_floor=opts.get('eigenvalue_floor', 1e-10))
+        lam_, V_ = np.linalg.eigh(C)
+        if lam_.min() <= 0:
+            tr.count('probe:tyler_singular_not_judged')
+            return
+        q = np.einsum('ne,e->n', np.abs(z.conj() @ V_) ** 2, 1.0 / lam_)
     Cm = S.impl_cacg_covariance(model, ())
     r = S._rel(Cm, C)
     S.note('tyler_n_steps', r, 1e-7)
@@ -1022,6 +1053,15 @@ def run_tyler(tr, op, program):
         tr.viol('R1', entry, f'fit(iterations={op["iterations"]}) differs from '
                 f'{op["iterations"]} eigenvalue-normalised Tyler steps by {r:.3e}')
         return
+    if op['iterations'] == 1:
+        # eigenvalue by eigenvalue (the floor is invisible in the matrix norm)
+        li = np.sort(np.asarray(model.covariance_eigenvalues, dtype=float))
+        ls = np.linalg.eigvalsh(C)
+        tol_e = 1e-6 * np.abs(ls) + 1e-12 * float(np.max(np.abs(ls)))
+        if not np.all(np.abs(li - ls) <= tol_e):
+            tr.viol('R1', entry, f'eigenvalues {li} of the fitted cACG differ '
+                    f'from the floored eigenvalues {ls} of the Tyler step')
+            return
     tr.compared += 1
     tr.count('tyler_comparisons')
     if op['fixed_point']:
